@@ -317,11 +317,17 @@ impl<R: RTraits> PMTiles<R> {
         let mut tile_manager = TileManager::new(Some(input));
 
         for (tile_id, info) in tiles {
-            tile_manager.add_offset_tile(
-                tile_id,
-                header.tile_data_offset + info.offset,
-                info.length,
-            )?;
+            let offset = header
+                .tile_data_offset
+                .checked_add(info.offset)
+                .ok_or_else(|| {
+                    std::io::Error::new(
+                        std::io::ErrorKind::InvalidData,
+                        "Offset of a tile overflows.",
+                    )
+                })?;
+
+            tile_manager.add_offset_tile(tile_id, offset, info.length)?;
         }
 
         Ok(Self {
